@@ -62,7 +62,9 @@ func (c *Client) Produce(args ProduceArgs) (enc.Name, error) {
 	}
 
 	// TODO: sign the data
-	basename := append(args.Name, enc.NewVersionComponent(version))
+	// do not append in place: if args.Name has spare capacity the metadata
+	// name built from args.Name below would overwrite the version component
+	basename := append(args.Name[:len(args.Name):len(args.Name)], enc.NewVersionComponent(version))
 	signer := sec.NewSha256Signer()
 
 	// use a transaction to ensure the entire object is written
